@@ -37,6 +37,9 @@ def main():
             if hasattr(mod, "prebuild"):
                 mod.prebuild(ctx)   # e.g. regenerate coq/Gen/*.v from the current source
             ok = common.coq_obligations(ctx, mod.PROPS_FILE, getattr(mod, "COQ_TARGETS", ()), getattr(mod, "ALLOWED_AXIOMS", ()))
+            # further statement files of the property (e.g. Tie/Txx.v: generated-from-source definitions = hand model)
+            for extra in getattr(mod, "EXTRA_PROPS", ()):
+                ok = common.coq_obligations(ctx, extra, (), getattr(mod, "ALLOWED_AXIOMS", ())) and ok
             if ctx.thorough and ok and getattr(mod, "COQCHK", True):
                 common.coqchk_cone(ctx, mod.PROPS_FILE)
             mod.run(ctx)
